@@ -12,7 +12,7 @@ def obligations(ctx):
     t = ag.tables(ctx)
     obs = []
     # integer pipeline, bit-precise: rotate -> automorphism -> add -> normalize (p1, p2 symbolic), both dispatch flags
-    for nn in (2, 4):
+    for nn in ((2,) if ctx.quick else (2, 4)):
         for k in (3, 16, 45):
             for avx in (0, 1):
                 obs.append(Ob("int/rotate-automorphism-add-normalize/N=%d/k=%d/avx=%d" % (nn, k, avx), "pipe.c", "h_pipe_int", {"NN": nn, "MM": max(nn // 2, 1), "K": k, "AVX": avx},
@@ -36,7 +36,7 @@ def obligations(ctx):
     for nn in (4, 8):
         for avx in (0, 1):
             obs.append(c01.prod_ob(t, 1, nn, avx, 2, 3, asl=nn + 2, tmpa=True, tag="fft64/"))
-            obs.append(c01.prod_ob(t, 2, nn, avx, 2, 2, nrows=2, ncols=2, tag="fft64/"))
+            obs.append(c01.prod_ob(t, 2, nn, avx, 2, 2, asl=nn + 3, nrows=2, ncols=2, tag="fft64/"))
             obs.append(c01.prod_ob(t, 3, nn, avx, 3, 3, nrows=3, ncols=3, tag="fft64/"))
     return obs
 
@@ -54,7 +54,7 @@ def check(ctx, only=None, list_only=False):
     meta = {
         "functions_encoded": ["vec_znx_rotate -> vec_znx_automorphism -> vec_znx_add -> vec_znx_normalize_base2k", "ntt120 vec_znx_dft -> vec_znx_idft / idft_tmp_a",
                               "svp_prepare -> svp_apply_dft -> vec_znx_idft_tmp_a", "vmp_prepare_contiguous -> [vec_znx_dft ->] vmp_apply_dft[_to_dft] -> vec_znx_idft_tmp_a"],
-        "bounds": "fixed pipelines of 2-4 public calls at N in {2,4,8}; operands symbolic (|x| <= 2^60 for the integer pipeline, all int64 by sign class for NTT120, real symbolic for FFT64)",
+        "bounds": "fixed pipelines of 2-4 public calls at N in {2,4,8} (integer pipeline: N=2 quick, N=4 thorough - 4 to 14 minutes per instance); operands symbolic (|x| <= 2^60 for the integer pipeline, all int64 by sign class for NTT120, real symbolic for FFT64)",
         "outside": "random well-typed programs of length ~40 are not generated: arbitrary sequences are covered only by the compositional argument (a) over the per-operation "
                    "claims C01-C03, C05, C08, C09 within their bounds; pipelines mixing FFT64 products with the integer tail (big_add_small, big normalize) are not executed end to end",
         "assumptions": ["compositional argument: each producer establishes and each consumer assumes the same representation predicate", "as in C01/C02/C03 for the reused analyses"],
